@@ -218,6 +218,50 @@ def rw_guard_to_if(text, log):
     raise AnchorLost('R11: no match with guards found')
 
 
+def rw_for_continue(text, log):
+    """R12: Verus rejects `continue` inside `for`.  A range loop `for I in LO..HI { BODY }` whose own body contains `continue` becomes
+       { let mut I = LO; let I__end = HI; while I < I__end { let I__cur = I; I = I + 1; { let I = I__cur; BODY } } }
+    Same iteration order, bounds evaluated once, BODY sees the same value of I, `continue` proceeds to the next index.
+    Returns (text, {loop_ordinal: (invariant_text, decreases_text)})."""
+    extras = {}
+    st = rtok.sig(rtok.lex(text))
+    fn_open = next(i for i, t in enumerate(st) if t[1] == '{')
+    loops = find_loops(st, fn_open + 1, len(st) - 1)
+    spans = []
+    for n, (kw_i, lo_i, lc_i) in enumerate(loops, 1):
+        if st[kw_i][1] != 'for':
+            continue
+        # `continue` at this loop's own level (not inside a nested loop)
+        nested = [(a, b) for (k2, a, b) in loops if a > lo_i and b < lc_i]
+        own = False
+        for j in range(lo_i + 1, lc_i):
+            if st[j][0] == 'ident' and st[j][1] == 'continue' and not any(a < j < b for a, b in nested):
+                own = True
+        if not own:
+            continue
+        # shape: for IDENT in LO .. HI {
+        if not (st[kw_i + 1][0] == 'ident' and st[kw_i + 2][1] == 'in'):
+            raise AnchorLost('R12: `continue` in a `for` loop that is not `for x in lo..hi`')
+        dd = None
+        for j in range(kw_i + 3, lo_i):
+            if st[j][1] == '..':
+                dd = j
+        if dd is None:
+            raise AnchorLost('R12: `continue` in a `for` loop over a non-range iterator (not supported by Verus)')
+        ident = st[kw_i + 1][1]
+        lo_txt = text[st[kw_i + 3][2]:st[dd - 1][3]]
+        hi_txt = text[st[dd + 1][2]:st[lo_i - 1][3]]
+        head = '{ let mut %s = %s; let %s__end = %s; while %s < %s__end ' % (ident, lo_txt, ident, hi_txt, ident, ident)
+        spans.append((st[kw_i][2], st[lo_i][2], head))
+        spans.append((st[lo_i][3], st[lo_i][3], ' let %s__cur = %s; %s = %s + 1; { let %s = %s__cur;' % (ident, ident, ident, ident, ident, ident)))
+        spans.append((st[lc_i][3], st[lc_i][3], ' } }'))
+        extras[n] = ('(%s <= %s__end || %s == %s) && %s__end == (%s)' % (ident, ident, ident, lo_txt, ident, hi_txt), '%s__end - %s' % (ident, ident))
+        log.append('R12 `for %s in %s..%s` containing `continue` rewritten to an index `while` loop' % (ident, lo_txt, hi_txt))
+    if spans:
+        text = _replace_spans(text, spans)
+    return text, extras
+
+
 def rw_vecslice(text, names, log):
     """R8: `&mut NAME[` -> `&mut NAME.as_mut_slice()[` ; `&NAME[` -> `&NAME.as_slice()[`"""
     st = rtok.sig(rtok.lex(text))
@@ -456,6 +500,14 @@ def build_fn(fs, repo, effectful, table_keys, canary=False):
             text, _b, _l = rw_lift_job(text, arg, log)
         else:
             raise specmod.SpecError('%s: unknown rewrite %s' % (origin, kind))
+
+    text, r12 = rw_for_continue(text, log)
+    for n, (inv_t, dec_t) in r12.items():
+        lp = fs.loops.setdefault(n, specmod.Loop(n))
+        lp.iter = None
+        lp.invariants = list(lp.invariants) + [specmod.Clause(list(fs.safety), inv_t, 'invariant', 'R12')]
+        if not lp.decreases:
+            lp.decreases = [specmod.Clause(['C07'], dec_t, 'decreases', 'R12')]
 
     toks = rtok.lex(text)
     st = rtok.sig(toks)
